@@ -45,7 +45,7 @@ PROPS = [
     ("self.rho", ["C16"]), ("constant:", ["C16"]), ("dualnorm:", ["C16"]), ("len(path", ["C12"]), ("path_is_None", ["C12"]), ("path_dist", ["C12"]),
     ("start.", ["C07"]),
     ("exactly_one_step", ["C12"]), ("exactly_one_callback", ["C12", "C09"]), ("step_starts_from", ["C12", "C15"]), ("step_uses_exactly", ["C15"]),
-    ("step_uses_self.rho", ["C16"]), ("callback_announces", ["C12", "C05"]), ("lamb_carried", ["C15"]), ("iteration_counted_once", ["C12", "C02"]),
+    ("step_uses_self.rho", ["C16"]), ("callback_announces", ["C12", "C05"]), ("lamb_carried", ["C15"]), ("iteration_counted_once", ["C12", "C02", "C08"]),
     ("rejected_or_failed=>iterate_unchanged", ["C15", "C07"]), ("rejected_or_failed=>next", ["C15"]), ("iterate_changed", ["C12"]), ("iterate_unchanged", ["C12"]),
     ("rho_never_decreases", ["C16"]), ("no_accepted_step=>self.rho", ["C16"]), ("accepted=>one_column", ["C12"]), ("appended_column", ["C12"]),
     ("model_time", ["C12"]), ("not_accepted=>path", ["C12"]), ("step_norms", ["C12"]), ("primal_step_norm", ["C12"]), ("dual_step_norm", ["C12"]),
@@ -57,6 +57,7 @@ PROPS = [
     ("collect_path", ["C12"]), ("no_collect_path", ["C12", "C09"]), ("final_rho", ["C16"]), ("dist_factor", ["C12"]),
     ("solve:self.rho_reset", ["C10", "C16"]),
 ]
+PROPS.insert(0, PROPS.pop())
 
 
 def props_of(label):
@@ -104,10 +105,13 @@ def build(u, policy, collect_path=None, limited=None):
 
     ctx.new_iterate = new_iterate
     transform = u.obj("pygradflow.transform.Transformation", evaluator=ev, params=params, orig_problem=Opaque("user problem"), scaling=None, trans_problem=problem)
+    # the real Solver.__init__ runs (Transformation construction is seen through its contract, C04); afterwards the
+    # state left behind by arbitrary earlier solves on the same object is havoced (C10: solve must not depend on it)
+    u.it.abstract["pygradflow.transform.Transformation"] = lambda it, orig_problem, params_: transform
     callbacks = u.obj("pygradflow.callbacks.Callbacks")
-    solver = u.obj("pygradflow.solver.Solver", orig_problem=Opaque("user problem"), params=params, callbacks=callbacks, transform=transform, problem=problem)
-    # persistent fields from an earlier solve are arbitrary (C10: written before read)
-    solver.fields["rho"] = u.real("stale_self_rho")
+    u.it.abstract["pygradflow.callbacks.Callbacks"] = lambda it: callbacks
+    solver = u.construct("pygradflow.solver.Solver", Opaque("user problem"), params)
+    havoc_persistent(u, solver, skip=(params, problem, transform, ev))
     ctx.solver = solver
     A = u.it.abstract
 
@@ -424,6 +428,36 @@ class SolveLoop:
         p = it.path
         p.prove(len(ctx.steps) == 0 and len(ctx.cbs) == 0, "Solver.solve/exit:limits_tested_before_any_state_change", kind="invariant", props=["C08", "C02"])
         p.prove(frame.locals["iterate"] is ctx.head["iterate"], "Solver.solve/exit:iterate_is_last_accepted", kind="invariant", props=["C08", "C12"])
+
+
+def havoc_persistent(u, solver, skip=()):
+    """state that earlier solves on the same Solver may have left behind: every attribute `solve` assigns on self
+    is arbitrary, and every numeric / list field of helper objects hanging off the solver is arbitrary (lists of
+    filter entries satisfy their own representation invariant)."""
+    fn = u.func(SOLVE).node
+    for n in ast.walk(fn):
+        if isinstance(n, ast.Attribute) and isinstance(n.ctx, ast.Store) and isinstance(n.value, ast.Name) and n.value.id == "self":
+            if n.attr == "rho":
+                solver.fields["rho"] = u.real("stale_self_rho")
+    seen = set(id(x) for x in skip)
+
+    def walk(o, depth):
+        if id(o) in seen or depth > 3:
+            return
+        seen.add(id(o))
+        for k, v in list(o.fields.items()):
+            if isinstance(v, Obj):
+                walk(v, depth + 1)
+            elif isinstance(v, ListCell) and k == "entries":
+                from .c18_filter import sym_entries
+
+                sym_entries(u, o, name="stale_E")
+            elif isinstance(v, (float,)) or (hasattr(v, "sort") and z3.is_real(v)):
+                o.fields[k] = u.real("stale_" + k)
+
+    for k, v in list(solver.fields.items()):
+        if isinstance(v, Obj) and id(v) not in seen:
+            walk(v, 1)
 
 
 def mk_dummy(u, ctx, k):
